@@ -55,6 +55,10 @@ type InstCfg struct {
 	Size   int  // 0 = option not given
 	NoMemo bool // DisableMemoize
 	Pretty bool
+	// ShareOpts: the option values passed to Init are built once per
+	// (grammar, U, knobs) and reused for every instance with the same knobs,
+	// as a program that keeps one options slice for all its parsers does.
+	ShareOpts bool
 }
 
 // Instance is the uniform face the generated driver.go gives every emitted
